@@ -367,6 +367,12 @@ void reg_layer()
     // the remaining (M,T) combinations on size_t coordinates
     Arr<L, std::size_t, 2, float, 4>::reg();
     Arr<L, std::size_t, 3, double, 1>::reg();
+    // a 16-bit coordinate scalar (beyond the listed ones) for the curve layouts, whose positions are computed in size_t;
+    // the row-major layer accumulates its index in the coordinate scalar itself, so narrower types than the listed ones
+    // cannot address more cells than they can count (documented limitation, not exercised)
+    if constexpr (L != Lay::strided) {
+        Arr<L, uint16_t, 2, float, 2>::reg();
+    }
 }
 
 void register_all()
@@ -382,6 +388,7 @@ void register_all()
     Arr<Lay::hilbert, unsigned, 2, double, 2>::reg();
     Arr<Lay::hilbert, int, 2, float, 3>::reg();
     Arr<Lay::hilbert, std::size_t, 2, double, 4>::reg();
+    Arr<Lay::hilbert, uint16_t, 2, float, 2>::reg();
 #endif
 }
 }   // namespace
